@@ -360,3 +360,29 @@ def grid(seed_: int, n: int, resmodels=(4, 3), econs=(1, 2, 3), with_extras: boo
         tag = f'grid{seed_}-{k}:rm{rm}/eu{eu}/pt{pl}/em{ec}' + ('+' + '+'.join(tags) if tags else '')
         out.append((tag, to_text(p), p))
     return out
+
+
+def neighbours(p: dict, rng: random.Random, names: list, k: int = 2) -> list:
+    """k variants of the configuration p, each differing from it in ONE of the stated figures `names` (a number scaled by a factor in
+    [0.5, 1.5] that is not 1, a whole number moved by one, a switch flipped).  Run right after p in the same process (sim.run_chains) they
+    are the histories on which a memo keyed by too few of its arguments, or any other state a run leaves behind, shows: the neighbour
+    shares every key but one with the run before it.  Returns [(name changed, variant)]."""
+    present = [n for n in names if n in p]
+    out = []
+    for n in rng.sample(present, min(k, len(present))):
+        v = p[n]
+        q = dict(p)
+        if str(v) in ('True', 'False'):
+            q[n] = 'False' if str(v) == 'True' else 'True'
+        else:
+            try:
+                iv = int(str(v))
+                q[n] = iv + 1 if (iv <= 1 or rng.random() < 0.5) else iv - 1
+            except ValueError:
+                try:
+                    fv = float(str(v))
+                except ValueError:
+                    continue
+                q[n] = fmt(fv * rng.choice([0.5, 0.75, 1.25, 1.5])) if fv != 0 else fmt(rng.uniform(0.01, 0.05))
+        out.append((n, q))
+    return out
